@@ -56,11 +56,14 @@ impl<'a> PrettyPrinter<'a> {
         &'a self,
         ctx: Context,
         parenthesized: Parenthesized<'a>,
+        embedded: bool,
     ) -> ArenaDoc<'a> {
         // NOTE: This is a safe cast. The parentheses for patterns are all optional.
         // For safety, we don't remove parentheses around idents. See `paren-in-key.typ`.
+        // Nor around a number or keyword directly after a hash in markup or math (`embedded`).
         let expr = parenthesized.expr();
-        let can_omit = (expr.is_literal()
+        let can_omit = ((expr.is_literal()
+            && !(embedded && expr.to_untyped().kind() != SyntaxKind::Str))
             || matches!(
                 expr.to_untyped().kind(),
                 SyntaxKind::Array
